@@ -9,6 +9,27 @@ TB = ("Coq 8.16.1 kernel; hand-written Gallina model tied to /repo by the corres
       "OCaml runner/main.ml; Python harness. See DESIGN.md section 7.")
 
 CLAIMED = {
+ "C02": dict(
+   text="21 theorems: associativity and units of >> and @, a @ b = a @ Id >> Id @ b, dagger involutive / "
+        "identity-on-objects / contravariant, d[:i] >> d[i:] = d at every depth, box = one-box diagram, and for "
+        "formal sums left-distributivity of >> and @, dagger-distributivity, units, right-distributivity for a "
+        "single-term left factor (exact) and up to the order of terms in general, all as Leibniz equalities of "
+        "the model's returned values for all (well-typed) diagrams; sum_then_distributes_right_refuted is the "
+        "vm_compute witness of known finding F20.  Tie to /repo: each law instance is run through the "
+        "implementation's == and both sides are compared with the extracted model.",
+   design="6/C02", engine="coq-core",
+   technique="Coq proof (algebraic laws on the hand model) + extracted-model correspondence + == oracle"),
+ "C08": dict(
+   text="13 theorems about a Gallina model of tensor.Tensor on top of a model of the numpy primitives it calls "
+        "(reshape, tensordot, moveaxis with numpy's insertion algorithm, identity, conjugate) over Gaussian "
+        "integers: composition = matrix product, tensor = Kronecker product, dagger = conjugate transpose and "
+        "involutive, identity matrices, swaps = block permutation matrices, interchange law, swap naturality, "
+        "cups/caps deltas and both snake equations for a single wire of any dimension, refusals; for all "
+        "dimension lists and arrays.  Partial: multi-wire snake equations (full statements kept as Definitions). "
+        "Tie to /repo: numpy-primitive suite against the installed numpy plus Tensor DSL programs against "
+        "discopy.tensor.Tensor, exact integer comparison, independent numpy kron/matmul oracle.",
+   design="6/C08", engine="coq-tensor",
+   technique="Coq proof (index arithmetic on a numpy model) + extracted-model correspondence + numpy oracle"),
  "C01": dict(
    text="Closure theorem api_program_wf: every value returned by any term of public-API calls "
         "(constructor, >>, @, dagger, forward/reversed slices, indexing, interchange, each yielded "
@@ -53,8 +74,11 @@ man = {
  "hooks": {"guard": "DISCOPY_VERIF", "enable": "export DISCOPY_VERIF=1 (set by ./check); no build step, discopy is imported from /repo's working tree",
            "baseline_off_cmd": "cd /repo && env -u DISCOPY_VERIF /venv/bin/python -m pytest -ra -q -p no:cacheprovider --timeout=900 --continue-on-collection-errors",
            "source_commits": ["94fb4a3"], "add_only": True},
- "engines": [{"name": "coq-core", "path": "coq/Core", "serves_properties": sorted(CLAIMED),
-              "kind_free_text": "Gallina model of the structural core of DisCoPy + Coq theorems + extracted OCaml runner for differential testing against /repo"}],
+ "engines": [{"name": e, "path": pth, "serves_properties": sorted(k for k, v in CLAIMED.items() if v.get("engine", "coq-core") == e),
+              "kind_free_text": txt} for e, pth, txt in [
+   ("coq-core", "coq/Core", "Gallina model of the structural core of DisCoPy (types, boxes, diagrams with layers, then/tensor/dagger/slices, interchange, normalize, swaps, permutations, cups/caps, functors, sums) + Coq theorems + extracted OCaml runners (core, sums) for differential testing against /repo"),
+   ("coq-tensor", "coq/Tensor", "Gallina model of numpy primitives and discopy.tensor.Tensor over Gaussian integers + Coq theorems + extracted runner"),
+ ]],
  "checks": checks,
  "not_applicable": na,
  "notes": "All checks import discopy from /repo's working tree at run time. See DESIGN.md.",
